@@ -78,7 +78,7 @@ static void world_teardown(void)
     /* every report-printing function on whatever state the objects are in (C10) */
     FILE *nul = fopen("/dev/null", "w");
     if (nul) {
-        for (int k = 0; k < nrec; k++) { if (!REC[k].ever || cmb_timeseries_count(rec_hist(&REC[k])) < 2) continue;
+        for (int k = 0; k < nrec; k++) { if (!REC[k].ever || cmb_timeseries_count(rec_hist(&REC[k])) < 1) continue;
             switch (REC[k].cls) { case RC_RES: cmb_resource_print_report(RES[REC[k].obj], nul); break; case RC_POOL: cmb_resourcepool_print_report(POOL[REC[k].obj], nul); break; case RC_BUF: cmb_buffer_print_report(BUF[REC[k].obj], nul); break; case RC_OQ: cmb_objectqueue_report_print(OQ[REC[k].obj], nul); break; default: cmb_priorityqueue_report_print(PQ[REC[k].obj], nul); }
             VR_CNT("reports_printed"); }
         fclose(nul);
@@ -126,6 +126,7 @@ void vr_case(uint64_t seed, uint64_t idx, int profile)
     cmb_logger_flags_off(CMB_LOGGER_INFO | CMB_LOGGER_WARNING);
     G = vr_rng_make(seed, idx, 0x5F + (uint64_t)profile);
     PROFILE = profile;
+    trace_on = (idx % 199 == 0); tracelen = 0; tracebuf[0] = 0;
     if (profile >= 100) { directed(profile - 100); return; }
     if (PROFILE > 11) PROFILE = 11;
     world_setup();
@@ -136,7 +137,7 @@ void vr_case(uint64_t seed, uint64_t idx, int profile)
     if (vr_nviol == 0) world_teardown();
     uint64_t nb = 0; for (int i = 0; i < vr_ncnt; i++) if (strncmp(vr_cnt_name[i], "ret_", 4) == 0 && strstr(vr_cnt_name[i], "_by_")) nb += vr_cnt_val[i];
     if (nb >= 1) vr_mark_nontrivial();
-    if (idx % 199 == 0) vr_sample("profile=%d processes=%d resources=%d pools=%d buffers=%d objectqueues=%d priorityqueues=%d conditions=%d start_time=%g finished=%d blocked_at_end=%d non-success returns=%" PRIu64, profile, NP, NR, NPL, NB, NOQ, NPQ, NCV, T0, finished, blocked, nb);
+    if (idx % 199 == 0) vr_sample("profile=%d processes=%d resources=%d pools=%d buffers=%d objectqueues=%d priorityqueues=%d conditions=%d start_time=%g finished=%d blocked_at_end=%d non-success returns=%" PRIu64 " | trace (P<n>>call(obj) = call record, P<n><call=signal = return record, P<n>.op = non-blocking op; -1 = dispatcher): %s...", profile, NP, NR, NPL, NB, NOQ, NPQ, NCV, T0, finished, blocked, nb, tracebuf);
 }
 
 int main(int argc, char **argv) { return vr_main(argc, argv); }
